@@ -163,4 +163,145 @@ theorem all_zip_drop (c : Int) : ∀ (l : List (Int × Int)),
       refine ⟨by simpa using h 0 (by simp), fun i hi => h (i + 1) (by simp only [List.length_cons] at hi ⊢; omega)⟩
 
 
+/-! ### slices with a step commute with `map`; membership -/
+
+theorem pySliceStep_map {α β} (f : α → β) (l : List α) (a b : Option Int) (c : Nat) :
+    pySliceStep (l.map f) a b c = (pySliceStep l a b c).map f := by
+  unfold pySliceStep
+  simp only [List.length_map, ← List.map_take, ← List.map_drop]
+  exact everyNth_map f c _ _ (Nat.le_refl _)
+
+theorem mem_everyNth {α} (c : Nat) (x : α) : ∀ (n : Nat) (l : List α), l.length ≤ n → x ∈ everyNth c l → x ∈ l := by
+  intro n
+  induction n with
+  | zero =>
+    intro l hl h
+    have : l = [] := List.eq_nil_of_length_eq_zero (by omega)
+    subst this; rw [everyNth_nil] at h; exact h
+  | succ n ih =>
+    intro l hl h
+    cases l with
+    | nil => rw [everyNth_nil] at h; exact h
+    | cons y ys =>
+      rw [everyNth_cons, List.mem_cons] at h
+      rcases h with h | h
+      · rw [h]; simp
+      · have := ih (ys.drop (c - 1)) (by simp at hl ⊢; omega) h
+        exact List.mem_cons_of_mem _ (List.mem_of_mem_drop this)
+
+theorem mem_pySliceStep {α} {l : List α} {a b : Option Int} {c : Nat} {x : α} (h : x ∈ pySliceStep l a b c) : x ∈ l := by
+  unfold pySliceStep at h
+  exact List.mem_of_mem_take (List.mem_of_mem_drop (mem_everyNth c x _ _ (Nat.le_refl _) h))
+
+theorem pyIndex_map {α β} (f : α → β) (l : List α) (i : Int) : pyIndex (l.map f) i = (pyIndex l i).map f := by
+  unfold pyIndex
+  simp only [List.length_map, List.getElem?_map]
+  split
+  · split <;> simp
+  · rfl
+
+/-! ### timestamps of the visible frames -/
+
+/-- every visible frame is a page of the file(s) -/
+def Stack.Paged (s : Stack) (pages : List Page) : Prop := ∀ p ∈ s.frames, 0 ≤ p ∧ p < pages.length
+
+/-- the range of page `p` as `frame_timestamp_ranges(include_dead_time = dead)` reports it (non-legacy files) -/
+def pageRange (pages : List Page) (dead : Bool) (p : Int) : Int × Int :=
+  match pageAt pages p with
+  | some pg => (pg.start, if dead then pg.stop else pg.expStop)
+  | none => (0, 0)
+
+theorem filterMap_eq_map {α β} (f : α → Option β) (g : α → β) : ∀ (l : List α), (∀ x ∈ l, f x = some (g x)) →
+    l.filterMap f = l.map g
+  | [], _ => rfl
+  | x :: xs, h => by
+    rw [List.filterMap_cons, h x (by simp), List.map_cons, filterMap_eq_map f g xs (fun y hy => h y (by simp [hy]))]
+
+theorem ranges_eq_map (s : Stack) (pages : List Page) (hp : s.Paged pages) (dead : Bool) :
+    s.ranges pages dead false = some (s.frames.map (pageRange pages dead)) := by
+  have hsome : ∀ p ∈ s.frames, ∃ pg, pageAt pages p = some pg := by
+    intro p hpm
+    obtain ⟨h0, h1⟩ := hp p hpm
+    unfold pageAt
+    rw [if_neg (by omega)]
+    exact ⟨pages[p.toNat]'(by omega), List.getElem?_eq_getElem (by omega)⟩
+  have hfm : s.frames.filterMap (pageAt pages) = s.frames.map (fun p => (pageAt pages p).getD ⟨0, 0, 0⟩) := by
+    apply filterMap_eq_map
+    intro p hpm
+    obtain ⟨pg, hpg⟩ := hsome p hpm
+    rw [hpg]; rfl
+  unfold Stack.ranges
+  simp only [hfm, List.length_map, ne_eq, not_true_eq_false, if_false, Bool.false_eq_true]
+  cases dead
+  · simp only [Bool.false_eq_true, if_false, List.map_map, Option.some.injEq]
+    apply List.map_congr_left
+    intro p hpm
+    obtain ⟨pg, hpg⟩ := hsome p hpm
+    simp [pageRange, hpg]
+  · simp only [if_true, List.map_map, Option.some.injEq]
+    apply List.map_congr_left
+    intro p hpm
+    obtain ⟨pg, hpg⟩ := hsome p hpm
+    simp [pageRange, hpg]
+
+
+theorem everyNth_one {α} : ∀ (n : Nat) (l : List α), l.length ≤ n → everyNth 1 l = l := by
+  intro n
+  induction n with
+  | zero =>
+    intro l hl
+    have : l = [] := List.eq_nil_of_length_eq_zero (by omega)
+    subst this; exact everyNth_nil 1
+  | succ n ih =>
+    intro l hl
+    cases l with
+    | nil => exact everyNth_nil 1
+    | cons x xs =>
+      rw [everyNth_cons]
+      simp only [Nat.sub_self, List.drop_zero]
+      rw [ih xs (by simp at hl; omega)]
+
+theorem pySliceStep_one {α} (l : List α) (i j : Int) : pySliceStep l (some i) (some j) 1 = pySlice l i j := by
+  unfold pySliceStep sliceIndicesPos pySlice
+  simp only
+  exact everyNth_one _ _ (Nat.le_refl _)
+
+theorem cropBound_none (dim dflt : Int) (h0 : 0 ≤ dflt) (h1 : dflt ≤ dim) : cropBound dim dflt none = dflt := by
+  unfold cropBound
+  simp only [Option.getD_none]
+  rw [if_neg (by omega)]
+  omega
+
+/-! ### re-defining a tether on a rotated stack (at `ℝ`) -/
+
+theorem cos_sq_add_sin_sq (e : Pt ℝ × Pt ℝ) (h : e.1.x ≠ e.2.x ∨ e.1.y ≠ e.2.y) :
+    tCos e * tCos e + tSin e * tSin e = 1 := by
+  have hr := tLen_pos e h
+  have hsq := tLen_sq e
+  unfold tCos tSin
+  generalize tLen e = r at *
+  field_simp
+  linear_combination (-1 : ℝ) * hsq
+
+theorem unrotate_rotate (e : Pt ℝ × Pt ℝ) (h : e.1.x ≠ e.2.x ∨ e.1.y ≠ e.2.y) (p : Pt ℝ) :
+    unrotate e (rotate e p) = p := by
+  have hcs := cos_sq_add_sin_sq e h
+  cases p with
+  | mk px py =>
+    simp only [unrotate, rotate]
+    congr 1
+    · linear_combination (px - tCx e) * hcs
+    · linear_combination (py - tCy e) * hcs
+
+/-- the raw ends after re-defining the tether through `p`, `q` of the current (rotated, cropped) image -/
+theorem withTether_ends (t : Tether ℝ) (e : Pt ℝ × Pt ℝ) (he : t.ends = some e) (p q : Pt ℝ) :
+    (t.withTether p q).ends = some (unrotate e ⟨p.x + t.offX, p.y + t.offY⟩, unrotate e ⟨q.x + t.offX, q.y + t.offY⟩) ∧
+    (t.withTether p q).offX = t.offX ∧ (t.withTether p q).offY = t.offY := by
+  refine ⟨?_, ?_, ?_⟩
+  · simp only [Tether.withTether, he, Tether.new, Option.map_some, unrotate]
+    congr 2 <;> (congr 1 <;> ring)
+  · simp only [Tether.withTether, he, Tether.new]
+  · simp only [Tether.withTether, he, Tether.new]
+
+
 end Verif.C07
